@@ -10,6 +10,19 @@ SIGNED = {"bool": False, "char": None, "schar": True, "uchar": False, "short": T
 SUF = {"int": "", "uint": "U", "long": "L", "ulong": "UL", "llong": "LL", "ullong": "ULL"}
 
 
+# enumerated controlling types wider than int (an enum whose enumerators do not fit int has a 64-bit compatible type; it is
+# not changed by the integer promotions): same dispatch as long / unsigned long, but a type KIND of its own in the compiler
+ENUMS = {"elong": ("long", "enum EL", "enum EL { EL_A = -1, EL_B = 0x7fffffffffffffff };\n"),
+         "eulong": ("ulong", "enum EU", "enum EU { EU_A = 0, EU_B = 0xffffffffffffffff };\n")}
+CNAME = dict(CNAME)
+SIZE = dict(SIZE)
+for _e, (_b, _c, _d) in ENUMS.items():
+    CNAME[_e] = _c
+    SIZE[_e] = SIZE[_b]
+    SIGNED[_e] = SIGNED[_b]
+    PROMO[_e] = _b
+
+
 def clit(n, v):
     """literal of (promoted) type n with value v (python int in range)"""
     if v < 0:
@@ -101,7 +114,7 @@ def probes_for(sw, charsigned, rng, maxn):
 
 def render(sw, probes):
     t, pt = sw["type"], sw["ptype"]
-    o = "void obs(long long);\n"
+    o = "void obs(long long);\n" + (ENUMS[t][2] if t in ENUMS else "")
     o += "static int f(%s v)\n{\n\tint r = -1;\n" % CNAME[t]
     pre, post = "", ""
     if sw["shape"] == "loop":
@@ -313,7 +326,7 @@ def run_duplicates(ctx, objdir):
     verd = {json.loads(v)["id"]: json.loads(v) for v in r.vcases}
 
     def comp(c):
-        src = "int f(%s v)\n{\n\tswitch (v) {\n%s\t}\n\treturn 0;\n}\n" % (CNAME[c["type"]], "".join("\tcase %s: return %d;\n" % (txt, j + 1) for j, (txt, _) in enumerate(c["keys"])))
+        src = (ENUMS[c["type"]][2] if c["type"] in ENUMS else "") + "int f(%s v)\n{\n\tswitch (v) {\n%s\t}\n\treturn 0;\n}\n" % (CNAME[c["type"]], "".join("\tcase %s: return %d;\n" % (txt, j + 1) for j, (txt, _) in enumerate(c["keys"])))
         rc, out, err = vlib.cproc(objdir, src, timeout=30)
         return c, src, rc, err
     for c, src, rc, err in vlib.pmap(comp, cases):
